@@ -239,6 +239,11 @@ func c19CBurstRun(c c19CBurst) Outcome {
 					s2.StreamDone(sid)
 					did = true
 				} else if g.EndStream == 0 && !g.Rst {
+					// the client is quiescent with this upload unfinished: it must be out of window by the ledger
+					// built from what we sent (a SETTINGS change the client missed for this stream shows here)
+					if sw, cw := s2.Windows(sid); sw > 0 && cw > 0 {
+						return fail("upload-stalled", "stream %d: the client is quiescent with the upload unfinished (%d octets received) although the stream window is %d and the connection window %d by what this server granted", sid, len(g.Body), sw, cw)
+					}
 					if sw, _ := s2.Windows(sid); sw < 1<<20 {
 						s2.SendWindowUpdate(sid, uint32(1<<21-sw))
 						did = true
